@@ -244,6 +244,7 @@ func fsm1(c *Ctx) {
 	// (b) terminal-ness
 	okTerm := false
 	var termTest ssa.Value
+	isNextTerminal := func(v ssa.Value) bool { b, ok := fieldOf(v, "Terminal"); return ok && b == next }
 	ir.Instrs(fn, func(in ssa.Instruction) {
 		st, ok := in.(*ssa.Store)
 		if !ok {
@@ -254,22 +255,62 @@ func fsm1(c *Ctx) {
 				// guarded by next.Terminal
 				ir.Instrs(fn, func(in2 ssa.Instruction) {
 					if tv, ok := in2.(ssa.Value); ok {
-						if bb, isT := fieldOf(tv, "Terminal"); isT && bb == next && ir.HoldsAt(tv, true, st.Block()) {
+						if isNextTerminal(tv) && ir.HoldsAt(tv, true, st.Block()) {
 							okTerm = true
 							termTest = tv
 						}
 					}
 				})
+				return
+			}
+			// s.Terminal = s.Terminal || next.Terminal
+			if phi, isPhi := st.Val.(*ssa.Phi); isPhi {
+				good, sawNext := true, false
+				for i, e := range phi.Edges {
+					if isNextTerminal(e) {
+						sawNext = true
+						continue
+					}
+					if v, isC := ir.ConstBool(e); isC && v {
+						// only when the state already is terminal
+						own := false
+						ir.Instrs(fn, func(in2 ssa.Instruction) {
+							if tv, ok := in2.(ssa.Value); ok {
+								if b2, isT := fieldOf(tv, "Terminal"); isT && b2 == ssa.Value(recv) {
+									p := phi.Block().Preds[i]
+									if ir.HoldsAt(tv, true, p) || (len(p.Instrs) > 0 && p.Instrs[len(p.Instrs)-1].(ssa.Instruction) != nil && condIs(p, tv) && p.Succs[0] == phi.Block()) {
+										own = true
+									}
+								}
+							}
+						})
+						if !own {
+							good = false
+						}
+						continue
+					}
+					good = false
+				}
+				if good && sawNext {
+					okTerm = true
+					// the unconditional store itself must lie on every path to `return true` after the expansion
+					for _, r := range ir.Returns(fn) {
+						if b, isC := ir.ConstBool(r.Results[0]); isC && b && innerHdr != nil && innerHdr.Dominates(r.Block()) {
+							if !(st.Block() == r.Block() || st.Block().Dominates(r.Block())) {
+								okTerm = false
+							}
+						}
+					}
+				}
 			}
 		}
 	})
-	if okTerm {
-		// the test must lie on every path from the expansion to `return true`
-		for _, r := range ir.Returns(fn) {
-			if b, isC := ir.ConstBool(r.Results[0]); isC && b {
-				if innerHdr != nil && innerHdr.Dominates(r.Block()) {
-					tb := termTest.(ssa.Instruction).Block()
-					if !tb.Dominates(r.Block()) {
+	if okTerm && termTest != nil {
+		// the inheritance must lie on every path from the expansion to `return true`
+		if ti, isI := termTest.(ssa.Instruction); isI {
+			for _, r := range ir.Returns(fn) {
+				if b, isC := ir.ConstBool(r.Results[0]); isC && b && innerHdr != nil && innerHdr.Dominates(r.Block()) {
+					if !ti.Block().Dominates(r.Block()) {
 						okTerm = false
 					}
 				}
@@ -285,14 +326,21 @@ func fsm1(c *Ctx) {
 			return
 		}
 		if b, f, isFA := ir.FieldAddr(st.Addr); isFA && f == "Transitions" && b == ssa.Value(recv) {
-			if call, isCall := stripConv(st.Val).(*ssa.Call); isCall {
-				if f2 := ir.Static(call); f2 != nil && removesOne(f2) {
-					removed = true
-				}
+			if isRemovalValue(st.Val, ssa.Value(recv)) {
+				removed = true
 			}
 		}
 	})
 	c.Check(removed, key+":remove-shortcut", fn.Pos(), "the shortcut transition is removed", "the shortcut transition is not removed")
+}
+
+// condIs: block p ends in `if v`.
+func condIs(p *ssa.BasicBlock, v ssa.Value) bool {
+	if len(p.Instrs) == 0 {
+		return false
+	}
+	iff, ok := p.Instrs[len(p.Instrs)-1].(*ssa.If)
+	return ok && iff.Cond == v
 }
 
 // isHasPredicate: f(s, tr) returns true only for a transition already present
@@ -331,6 +379,36 @@ func isHasPredicate(c *Ctx, f *ssa.Function) bool {
 		}
 	}
 	return ok
+}
+
+// isRemovalValue: v is a transition list with one element less than the receiver's current list:
+// the result of a removesOne helper, or a slice made with len(recv.Transitions)-1.
+func isRemovalValue(v ssa.Value, recv ssa.Value) bool {
+	v = stripConv(v)
+	if cv, isCall := v.(*ssa.Call); isCall {
+		f2 := ir.Static(cv)
+		return f2 != nil && removesOne(f2)
+	}
+	ms, ok := v.(*ssa.MakeSlice)
+	if !ok {
+		return false
+	}
+	bo, ok := ms.Len.(*ssa.BinOp)
+	if !ok || bo.Op != token.SUB {
+		return false
+	}
+	if one, isC := ir.ConstInt(bo.Y); !isC || one != 1 {
+		return false
+	}
+	lc, ok := bo.X.(*ssa.Call)
+	if !ok {
+		return false
+	}
+	if b, isB := lc.Call.Value.(*ssa.Builtin); !isB || b.Name() != "len" {
+		return false
+	}
+	b, isT := fieldOf(stripConv(lc.Call.Args[0]), "Transitions")
+	return isT && b == recv
 }
 
 // removesOne: f returns a freshly made slice of length len(arr)-1.
@@ -511,11 +589,9 @@ func fixpointMeasure(c *Ctx, caller *ssa.Function, loopB *ssa.BasicBlock, call *
 		if !isFA || f != "Transitions" || b != ssa.Value(recv) {
 			return
 		}
-		if cv, isCall := stripConv(st.Val).(*ssa.Call); isCall {
-			if f2 := ir.Static(cv); f2 != nil && removesOne(f2) {
-				removeStores = append(removeStores, st)
-				return
-			}
+		if isRemovalValue(st.Val, ssa.Value(recv)) {
+			removeStores = append(removeStores, st)
+			return
 		}
 		appendStores = append(appendStores, st)
 	})
@@ -1103,6 +1179,17 @@ func fsm5(c *Ctx) {
 				if len(r.Results) == 1 && r.Results[0] == ssa.Value(cv) {
 					if r.Block() == cv.Block() || errIsNonNilAt(cv, r.Block()) {
 						okErr = true
+					}
+				}
+				// `err := f(a); if err == nil { err = f(b) }; return err`
+				if len(r.Results) == 1 {
+					if phi, isPhi := r.Results[0].(*ssa.Phi); isPhi {
+						for i, e := range phi.Edges {
+							p := phi.Block().Preds[i]
+							if e == ssa.Value(cv) && (p == cv.Block() || errIsNonNilAt(cv, p) || cv.Block().Dominates(p)) {
+								okErr = true
+							}
+						}
 					}
 				}
 			}
